@@ -606,12 +606,12 @@ def _is_valid_ipaddress(address: str) -> bool:
     try:
         socket.inet_pton(socket.AF_INET, address)
         return True
-    except OSError:
+    except (OSError, ValueError):
         pass
     try:
         socket.inet_pton(socket.AF_INET6, address)
         return True
-    except OSError:
+    except (OSError, ValueError):
         pass
     return False
 
